@@ -6494,6 +6494,13 @@ class SSHServerConnection(SSHConnection):
                                    listen_port: int) -> None:
         """Finish processing a TCP/IP port forwarding request"""
 
+        if listen_port and (listen_host, listen_port) in self._local_listeners:
+            self.logger.info('Request for TCP listener on %s denied: already '
+                             'listening', (listen_host, listen_port))
+
+            self._report_global_response(False)
+            return
+
         listener = self._owner.server_requested(listen_host, listen_port)
 
         try:
@@ -6640,6 +6647,13 @@ class SSHServerConnection(SSHConnection):
 
     async def _finish_path_forward(self, listen_path: str) -> None:
         """Finish processing a UNIX domain socket forwarding request"""
+
+        if listen_path in self._local_listeners:
+            self.logger.info('Request for UNIX listener on %s denied: already '
+                             'listening', listen_path)
+
+            self._report_global_response(False)
+            return
 
         listener = self._owner.unix_server_requested(listen_path)
 
